@@ -568,6 +568,80 @@ def run(tier="quick", seed=0):
                 for raise_at, catch_at in [(None, None)] + [(r, c) for r in range(1, depth + 1) for c in range(1, r + 1)]:
                     stop_case(kinds, raise_at, catch_at)
 
+        # ---- layer Q: context objects created up front, then entered/left in every well-nested order, with the context in
+        # ---- force probed at every subset of the points in between (a probe is itself a contextual call and may leave state)
+        def bracketings(k):
+            """all well-nested enter/exit token strings with k blocks"""
+            if k == 0:
+                return [()]
+            out = []
+            for i in range(k):
+                for a in bracketings(i):
+                    for b in bracketings(k - 1 - i):
+                        out.append(("E",) + a + ("X",) + b)
+            return out
+
+        def program_case(shape, assign, probes):
+            nonlocal ev
+            ev += 1
+            layers["Q"] = layers.get("Q", 0) + 1
+            ctl = new_controller(MachineController)
+            made = [ctl(x=1, y=1, p=1), ctl(x=2, y=2, p=2), ctl.application(20)]
+            settings = [{"x": 1, "y": 1, "p": 1}, {"x": 2, "y": 2, "p": 2}, {"app_id": 20}]
+            stack, which, log = [], iter(assign), []
+            inputs = {"contexts_created_first": ["mc(x=1,y=1,p=1)", "mc(x=2,y=2,p=2)", "mc.application(20)"], "program": [], "blocks_outermost_first": []}
+            problems = []
+
+            def probe(pos):
+                want = {"app_id": 66}
+                for i in stack:
+                    want.update(settings[i])
+                got = ctl.get_context_arguments()
+                inputs["program"].append("probe")
+                if got != want:
+                    problems.append(("context_in_force", "after %r: get_context_arguments() = %r, expected %r" % (inputs["program"], got, want)))
+                    return
+                if all(n in want for n in ("x", "y", "p")):
+                    del trace[:]
+                    ctl.send_scp(int(consts.SCPCommands.sver))
+                    if not trace or trace[0][2:5] != (want["x"], want["y"], want["p"]):
+                        problems.append(("context_in_force", "after %r: send_scp went to %r, in force %r" % (inputs["program"], trace[0][2:5] if trace else None, want)))
+            try:
+                if 0 in probes:
+                    probe(0)
+                for pos, tok in enumerate(shape):
+                    if tok == "E":
+                        i = next(which)
+                        made[i].__enter__()
+                        stack.append(i)
+                        inputs["program"].append("enter #%d" % i)
+                    else:
+                        i = stack.pop()
+                        del trace[:]
+                        made[i].__exit__(None, None, None)
+                        inputs["program"].append("leave #%d" % i)
+                        sent = [(r[5], r[7] >> 16, r[7] & 0xff) for r in trace]
+                        want_sent = [(int(consts.SCPCommands.signal), int(consts.AppSignal.stop), 20)] if i == 2 else []
+                        if sent != want_sent:
+                            problems.append(("application_stopped_on_exit", "after %r: leaving block #%d sent %r, expected %r" % (inputs["program"], i, sent, want_sent)))
+                    if pos + 1 in probes:
+                        probe(pos + 1)
+            except Exception as e:      # noqa
+                problems.append(("unexpected_exception", "%s: %s" % (type(e).__name__, e)))
+            for c, why in problems[:1]:
+                note("Q", c, why, inputs)
+            distinct.add(("Q", shape, assign, probes))
+
+        for k in (1, 2, 3):
+            for shape in bracketings(k):
+                for assign in itertools.product(range(3), repeat=k):
+                    # an application block stops its application once per entry: entering one object twice is legal
+                    allp = [frozenset(c) for n in range(len(shape) + 2) for c in itertools.combinations(range(len(shape) + 1), n)]
+                    if k == 3 and not thorough:
+                        allp = [pp for j, pp in enumerate(allp) if (j + ev) % 9 == 0]
+                    for probes in allp:
+                        program_case(shape, assign, tuple(sorted(probes)))
+
         # ---- layer G: discovered connections --------------------------------------------------------------
         def conn_case(w, h, root, known, chips, method):
             nonlocal ev
@@ -645,7 +719,8 @@ def run(tier="quick", seed=0):
                      "N: every nesting of <= 3 blocks over the 16 subsets of {x,y,p,app_id} or an application block x left normally / by an exception raised in the body of any "
                      "level (after deeper blocks were left normally) and caught around any level above it (probe commands at depth 3: %s); get_context_arguments and a probe command (send_scp / sdram_alloc / write in rotation) inside every block, after every "
                      "inner exit and after every catch. S: nestings of application blocks (id positional / keyword / from context) mixed with argument blocks, every exit path: wire "
-                     "log == stop signals, inner first. G: 12x12, 24x12, 12x24, 36x12, 24x24 SpiNN-5 machines x root chips (0,0),(8,4),(4,8),(1,2) x all / every second / no "
+                     "log == stop signals, inner first. Q: three context objects (two argument blocks, one application block) created UP FRONT, then every well-nested enter/leave "
+                     "program with <= 3 blocks over them (siblings, re-entry, nesting) x every subset (quick: every ninth for 3 blocks) of the points in between at which the context in force is probed; stop signal exactly when the application block is left. G: 12x12, 24x12, 12x24, 36x12, 24x24 SpiNN-5 machines x root chips (0,0),(8,4),(4,8),(1,2) x all / every second / no "
                      "connection known, every chip, five methods (quick: one of them in rotation), expected board from an own hexagon model. "
                      "distinct = (method, ways) / (nesting, exit path) / (machine, root, known set, method)" % (layers, len(methods), len(skipped), "all three" if thorough else "one of three in rotation")),
             "bound": "<= 3 nested blocks, 4 ways of passing, machines up to 24x24 / 36x12, fixed dummy arguments and fixed replies from the recording connection",
